@@ -5,7 +5,7 @@ From NR Require Import Lib.Base Lib.Nip01 SQLM.Rel SQLM.Write SQLM.Query.
 Open Scope list_scope. Open Scope Z_scope.
 
 (* a blob literal x'<hex>' with an even number of hex digits; anything else cannot be lexed *)
-Definition blob_of_hex (h : pystr) : bytes := match bytes_of_hex h with Some b => b | None => [] end.
+Definition blob_of_hex (h : pystr) : bytes := match py_fromhex h with Some b => b | None => [] end.
 
 (* id IN (SELECT id FROM tags WHERE name = n AND value IN (vs)) *)
 Definition tag_subquery (tags : list trow) (i : bytes) (n : pystr) (vs : list pystr) : bool :=
